@@ -265,3 +265,4 @@ func VerifH_HistoryPages() {
 	}
 	verifrt.Reach("page returned")
 }
+
